@@ -752,7 +752,11 @@ impl Kanata {
         let ns_elapsed = now.duration_since(self.last_tick).as_nanos();
         let ns_elapsed_with_rem = ns_elapsed + self.time_remainder;
         let ms_elapsed = ns_elapsed_with_rem / NS_IN_MS;
-        self.time_remainder = ns_elapsed_with_rem % NS_IN_MS;
+        // With ms_elapsed == 0, last_tick is kept (see below), so the next call measures this
+        // interval again: carrying it in the remainder as well would count it twice.
+        if ms_elapsed > 0 {
+            self.time_remainder = ns_elapsed_with_rem % NS_IN_MS;
+        }
 
         self.tick_ms(ms_elapsed, tx)?;
 
